@@ -1,6 +1,8 @@
 package sim
 
 import (
+	"sort"
+
 	"pgregory.net/rapid"
 )
 
@@ -23,6 +25,17 @@ type C16Plan struct {
 	// compact
 	Compacts []uint32
 	MaxEnc   uint32
+	// xpoa: validator-set changes made on chain (editValidates transactions in real blocks) and the
+	// life of the receiving node around them; empty: the configured list stays in force
+	VC []C16Ev
+}
+
+// C16Ev is one event of an xpoa run with on-chain validator changes.
+type C16Ev struct {
+	At   int   // acc: the event happens before this step (as soon as no candidate is held back)
+	Kind int   // 0: an editValidates transaction in an honest block; 1: the receiving node is re-opened from its disk; 2: the receiving node runs CompeteMaster
+	Set  []int // edit: the new validator list (indices of identities, distinct, in list order)
+	Fill int   // edit: honest blocks delivered right after the block that carries the change
 }
 
 // C16Sched is a slot-schedule configuration (tdpos: all fields; xpoa: Period, BlockNum, NVal).
@@ -55,6 +68,8 @@ type C16Step struct {
 	BitsVar int   // 0 prescribed; 1 default; 2 mantissa+1; 3 mantissa-1; 4 other encoding of the same value; 5 zero; 6 sign bit; 7 much easier
 	Grind   int   // 0 meet min(prescribed, claimed); 1 meet the claimed target only; 2 miss the claimed target
 	Dt      int64 // pow: timestamp minus parent's, ms
+	// xpoa with validator changes: the list the builder follows while two lists are admissible (0 older, 1 newer)
+	SetSel int
 }
 
 func c16Pick(rt *rapid.T, label string, xs []int64) int64 {
@@ -67,7 +82,7 @@ func GenC16Plan(rt *rapid.T, tier string) *C16Plan {
 	th := tier == "thorough"
 	p := &C16Plan{}
 	p.Seed = rapid.Uint64Range(1, 1<<40).Draw(rt, "seed")
-	modes := []string{"tile-tdpos", "tile-tdpos", "tile-tdpos", "acc-tdpos", "acc-tdpos", "acc-tdpos", "tile-xpoa", "tile-xpoa", "acc-xpoa", "acc-xpoa", "acc-single", "acc-pow", "acc-pow", "acc-pow", "compact"}
+	modes := []string{"tile-tdpos", "tile-tdpos", "tile-tdpos", "acc-tdpos", "acc-tdpos", "acc-tdpos", "tile-xpoa", "tile-xpoa", "acc-xpoa", "acc-xpoa", "acc-single", "acc-pow", "acc-pow", "acc-pow", "compact", "acc-xpoa"}
 	p.Mode = modes[rapid.IntRange(0, len(modes)-1).Draw(rt, "mode")]
 	periods := []int64{3, 2, 4, 5, 7, 10, 16}
 	if th {
@@ -149,5 +164,60 @@ func GenC16Plan(rt *rapid.T, tier string) *C16Plan {
 			p.Compacts = append(p.Compacts, rapid.Uint32().Draw(rt, "compact"))
 		}
 	}
+	// on-chain validator changes (xpoa); drawn last, the smallest draws mean "no change"
+	if p.Mode == "acc-xpoa" {
+		nEdit := int(c16Pick(rt, "vc-edits", []int64{0, 1, 1, 1, 2, 2}))
+		last := len(p.Steps) - 3
+		if last < 0 {
+			last = 0
+		}
+		for e := 0; e < nEdit; e++ {
+			ev := C16Ev{Kind: 0}
+			ev.At = rapid.IntRange(0, last).Draw(rt, "vc-at")
+			ev.Set = c16DrawSet(rt)
+			ev.Fill = int(c16Pick(rt, "vc-fill", []int64{0, 7, 6, 3, 8, 7, 6}))
+			p.VC = append(p.VC, ev)
+		}
+		if nEdit > 0 {
+			nRole := rapid.IntRange(0, 3).Draw(rt, "vc-roles")
+			for e := 0; e < nRole; e++ {
+				ev := C16Ev{Kind: 1 + rapid.IntRange(0, 1).Draw(rt, "vc-role")}
+				ev.At = rapid.IntRange(0, len(p.Steps)-1).Draw(rt, "vc-at")
+				p.VC = append(p.VC, ev)
+			}
+			sort.SliceStable(p.VC, func(i, j int) bool { return p.VC[i].At < p.VC[j].At })
+			for i := range p.Steps {
+				p.Steps[i].SetSel = rapid.IntRange(0, 1).Draw(rt, "setsel")
+			}
+		}
+	}
+	if p.Mode == "tile-xpoa" && rapid.IntRange(0, 1).Draw(rt, "vc-tile") == 1 {
+		ev := C16Ev{Kind: 0, Set: c16DrawSet(rt)}
+		ev.Fill = c16Window + rapid.IntRange(0, 3).Draw(rt, "vc-fill")
+		p.VC = append(p.VC, ev)
+		if role := int(c16Pick(rt, "vc-role", []int64{0, 0, 1, 2})); role > 0 {
+			p.VC = append(p.VC, C16Ev{Kind: role})
+		}
+		p.Full = s.Period*s.BlockNum*int64(len(ev.Set))*int64(p.Terms+1) <= lim
+	}
 	return p
+}
+
+// c16Pool is the number of identities validator lists are drawn from.
+const c16Pool = 6
+
+// c16DrawSet draws a validator list: 1..4 distinct identities of the pool in any order.
+func c16DrawSet(rt *rapid.T) []int {
+	n := rapid.IntRange(1, 4).Draw(rt, "vc-size")
+	pool := []int{}
+	for i := 0; i < c16Pool; i++ {
+		pool = append(pool, i)
+	}
+	var set []int
+	for j := 0; j < n; j++ {
+		k := rapid.IntRange(0, len(pool)-1).Draw(rt, "vc-member")
+		set = append(set, pool[k])
+		pool = append(pool[:k], pool[k+1:]...)
+	}
+	return set
 }
